@@ -297,18 +297,25 @@ def find_entries(
         cte = f'WITH wordforms(s) AS (VALUES {_vs(forms)})'
         or_norm = 'OR normalized_form IN wordforms' if normalized else ''
         and_rank = '' if search_all_forms else 'AND rank = 0'
+        and_lex = ''
+        if lexicon_rowids:
+            and_lex = f'AND lexicon_rowid IN ({_qs(lexicon_rowids)})'
         conditions.append(f'''
             e.rowid IN
                (SELECT entry_rowid
                   FROM forms
-                 WHERE (form IN wordforms {or_norm}) {and_rank})
+                 WHERE (form IN wordforms {or_norm}) {and_rank} {and_lex})
         '''.strip())
         params.extend(forms)
+        params.extend(lexicon_rowids)
     if pos:
         conditions.append('e.pos = ?')
         params.append(pos)
     if lexicon_rowids:
         conditions.append(f'e.lexicon_rowid IN ({_qs(lexicon_rowids)})')
+        params.extend(lexicon_rowids)
+        # forms an extension adds to the entry belong to the extension
+        conditions.append(f'f.lexicon_rowid IN ({_qs(lexicon_rowids)})')
         params.extend(lexicon_rowids)
 
     condition = ''
@@ -354,13 +361,17 @@ def find_senses(
         cte = f'WITH wordforms(s) AS (VALUES {_vs(forms)})'
         or_norm = 'OR normalized_form IN wordforms' if normalized else ''
         and_rank = '' if search_all_forms else 'AND rank = 0'
+        and_lex = ''
+        if lexicon_rowids:
+            and_lex = f'AND lexicon_rowid IN ({_qs(lexicon_rowids)})'
         conditions.append(f'''
             s.entry_rowid IN
                (SELECT entry_rowid
                   FROM forms
-                 WHERE (form IN wordforms {or_norm}) {and_rank})
+                 WHERE (form IN wordforms {or_norm}) {and_rank} {and_lex})
         '''.strip())
         params.extend(forms)
+        params.extend(lexicon_rowids)
     if pos:
         conditions.append('e.pos = ?')
         params.append(pos)
@@ -409,7 +420,8 @@ def find_synsets(
         and_rank = '' if search_all_forms else 'AND rank = 0'
         and_lex = ''
         if lexicon_rowids:
-            and_lex = f'AND _s.lexicon_rowid IN ({_qs(lexicon_rowids)})'
+            and_lex = (f'AND _s.lexicon_rowid IN ({_qs(lexicon_rowids)})'
+                       f' AND f.lexicon_rowid IN ({_qs(lexicon_rowids)})')
         join = f'''\
           JOIN (SELECT _s.entry_rowid, _s.synset_rowid, _s.entry_rank
                   FROM forms AS f
@@ -418,6 +430,7 @@ def find_synsets(
             ON s.synset_rowid = ss.rowid
         '''.strip()
         params.extend(forms)
+        params.extend(lexicon_rowids)
         params.extend(lexicon_rowids)
         order = 'ORDER BY s.entry_rowid, s.entry_rank'
     if pos:
